@@ -65,6 +65,14 @@ CHECKS = {
    note="the k and L dimensions are input sampling; what the simulator adds is the history/partition dimension and ownership of the clock; comparisons stop at exact ties at the sliding threshold",
    technique="deterministic simulation: clock-rate-scaled twin world executing the same seeded schedule, history comparison",
  ),
+ "C08": dict(
+   engine="world",
+   category="exploration",
+   text="Seeded scheduler over 2-4 real Mineral objects (both phases, own flows/params/pathlines): call-level interleavings plus overlapped updates in which 2-3 minerals are advanced by real caller threads parked at every collaborator callback and released one at a time following a baton sequence that is part of the scenario; neighbours' updates carry injected faults. Every mineral's history (all snapshots, every returned F, every status) must be BIT-IDENTICAL between the interleaved/overlapped execution, its solo execution, the execution with phase and fraction lists permuted together, the execution with only the other phase's fraction changed, and an identically built and driven duplicate; one bulk update from the reached state in two orders must give every mineral the snapshot of its own single update and return the last mineral's F; the single-phase mineral with mobility M* x phi is compared at 1e-6 (tight solver).",
+   design_ref="DESIGN.md 4.6",
+   note="nested same-thread re-entry excluded (scipy LSODA forbids it); threads are real, the choice of who runs between two callbacks is the simulator's (watchdog turns a stuck hand-over into exit 2)",
+   technique="deterministic simulation: seeded scheduler with baton-passed caller threads, bit-identity against solo twin",
+ ),
 }
 
 def build():
